@@ -49,6 +49,14 @@ def draw_cluster(rng):
         # exactly touching, exactly representable numbers
         for j in range(k):
             members.append({'n': 1.5, 'r': 0.5, 'center': [float(j), 0.0, 2.0]})
+        if k > 1 and rng.random() < 0.5:
+            # ... or interpenetrating / separated by a hair (exactly
+            # representable: powers of two), in units where a hair matters
+            eps = rng.choice([2.0 ** -20, 2.0 ** -30, -2.0 ** -20])
+            scale = rng.choice([1.0, 2.0 ** -20])
+            members = [{'n': 1.5, 'r': 0.5 * scale,
+                        'center': [(j - (eps if j else 0.0)) * scale, 0.0,
+                                   2.0 * scale]} for j in range(2)]
         return members
     for j in range(k):
         r = rfloat(rng, 0.2, 0.8, 3)
